@@ -795,6 +795,15 @@ func build(n *Node, e *Env) (z.ZogSchema, reflect.Type) {
 				}
 				return data, nil
 			}, es), et
+		case "ptr": // a function with a pointer result: nil ("nothing there") for inputs containing "none", else the trimmed input
+			return z.Preprocess(func(data string, ctx z.Ctx) (*string, error) {
+				e.preCall(n, data, ctx)
+				if strings.Contains(data, "none") {
+					return nil, nil
+				}
+				t := strings.TrimSpace(data)
+				return &t, nil
+			}, es), et
 		// Validate-mode wrappers: the function receives a pointer to the node's value (F = *T) and its output is written back
 		case "vtrim":
 			return z.Preprocess(func(data *string, ctx z.Ctx) (string, error) {
